@@ -3,7 +3,7 @@
    result.  Statements only; proofs are in Proofs/C32.v.
 
    Quantification.  [plan] is any chunk plan (list of the resource's consecutive
-   pieces), [ans] ANY assignment of an answer (failure, or any status with any
+   pieces), [ans] ANY assignment of an answer (failure, or any status, any framing, any
    body) to every attempt, [slow] ANY time oracle for the hedge decision,
    [hedging]/[maxh] any hedging setting, [sched] ANY order in which the results
    of in-flight attempts reach the receive loop (no bound on its length).
@@ -82,6 +82,16 @@ Theorem duplicate_blind_outcome : forall res cs ans slow hedging maxh sched s,
                then RBytes res else RError.
 Proof. exact blind_l. Qed.
 
+(* The admission test depends on the status and the bytes received, never on how
+   the body's end was signalled (declared Content-Length, chunked, connection
+   close): in particular a 206 body of the wrong length is refused under every
+   framing, also when it ended with a clean EOF and no declared length. *)
+Theorem framing_irrelevant : forall w st f1 f2 b, accept w (Resp st f1 b) = accept w (Resp st f2 b).
+Proof. exact framing_irrelevant_l. Qed.
+
+Theorem wrong_length_refused : forall w st f b, length b <> w -> accept w (Resp st f b) = None.
+Proof. exact wrong_length_refused_l. Qed.
+
 (* Unset (zero / negative) parallelism is replaced by a positive worker count. *)
 Theorem parallelism_positive : forall p, (0 < eff_parallel p)%Z.
 Proof. exact eff_parallel_pos. Qed.
@@ -109,7 +119,7 @@ Proof. exact legacy_wrong_l. Qed.
 Example premises_satisfiable :
   let res := [10; 20; 30; 40; 50; 60; 70]%N in
   let plan := chunks 3 res in
-  let ans := fun a : attempt => Resp 206 (nth (fst a) plan []) in
+  let ans := fun a : attempt => Resp 206 Chunked (nth (fst a) plan []) in
   length plan = 3 /\ honest plan ans
   /\ (forall i, i < length plan -> exists d, accept (want plan i) (ans (i, false)) = Some d)
   /\ exists s, run plan ans (fun _ _ => true) true 4%Z [(2, false); (0, false); (1, false); (1, true)] (init plan) = Done s
